@@ -196,9 +196,15 @@ impl Family for C17Family {
                         }
                     }
                 }
-                (OpKind::U2fRegister { .. }, OpResult::U2fReg(Err(_))) => {
-                    if rec.events_of(o.actor, o.idx).any(|e| matches!(&e.ev, Ev::SaveRet { injected: true, .. })) {
+                (OpKind::U2fRegister { handle, .. }, OpResult::U2fReg(Err(e))) => {
+                    let injected = rec.events_of(o.actor, o.idx).any(|e| matches!(&e.ev, Ev::SaveRet { injected: true, .. } | Ev::FindRet { injected: true, .. } | Ev::UpdateRet { injected: true, .. }));
+                    if injected {
                         stats.probe("save_error_reported");
+                    }
+                    // nothing was injected and the user consents: a registration (any key handle of 0-255 bytes) succeeds
+                    let spec = op_spec(c, o);
+                    if scn.batch == "strict" && !injected && spec.faults.is_empty() && spec.user.is_empty() && spec.cancel_after.is_none() {
+                        j.fail("register-failed", format!("op a{}#{}: U2F registration of a {}-byte key handle failed without any injected fault: {e}", o.actor, o.idx, handle.len()));
                     }
                     if !applied(&rec, o).is_empty() {
                         j.fail("register-err-stored", format!("op a{}#{}: U2F registration failed but the store was written", o.actor, o.idx));
